@@ -361,8 +361,17 @@ func c02Scenario(r *sim.Run) {
 					}
 					if kind == 4 {
 						nb := 1 + tp.Choose("nflips", 3)
+						flipped := map[int]bool{}
 						for i := 0; i < nb; i++ {
 							bit := tp.Choose("bit", tagLen*8)
+							// distinct bits (flipping one bit twice restores it), and not the two high
+							// bits of the Elligator representative (byte 31 of the obfuscated prefix
+							// tag): they are random padding that the station masks off, so changing
+							// them does not alter the tag that is revealed
+							for flipped[bit] || (tagLen == 64 && bit/8 == 31 && bit%8 >= 6) {
+								bit = (bit + 1) % (tagLen * 8)
+							}
+							flipped[bit] = true
 							fl[len(fl)-tagLen+bit/8] ^= 1 << (bit % 8)
 						}
 						label = fmt.Sprintf("genuine flight with %d bit(s) flipped in the tag", nb)
